@@ -206,7 +206,66 @@ def m_crash_rename_over(f, case, viol):
     return all(any(_related(_unconf(p), q) for q in dsts) for p in paths)
 
 
-MATCHERS = {"crash_rename_over": m_crash_rename_over, "event_exc": m_event_exc, "half_transfer": m_half_transfer, "history": m_history, "rename_race": m_rename_race, "dirdelete_race": m_dirdelete_race}
+def _abs_moves(case, kinds):
+    """user moves addressed by account paths that cross a sync-root boundary: [(plan index, side, op, inside rel path, outside path, direction)]"""
+    roots = tuple(case.get("cfg", {}).get("roots", ("/local", "/remote")))
+    out = []
+    for i, it in enumerate(case.get("plan", [])):
+        if it and it[0] == "A" and it[2] in kinds:
+            side, src, dst = it[1], it[3], it[4]
+            root = roots[side]
+            si, di = (src == root or src.startswith(root + "/")), (dst == root or dst.startswith(root + "/"))
+            if si != di:
+                inside, outside = (src, dst) if si else (dst, src)
+                out.append((i, side, it[2], inside[len(root):], outside, "out" if si else "in"))
+    return out
+
+
+def _paths_related_to_moves(viol, moves):
+    paths = _diff_paths(viol)
+    if not paths:
+        return False
+    rel = [m[3] for m in moves] + [m[4] for m in moves]
+    return all(any(_related(_unconf(p), q) for q in rel) for p in paths)
+
+
+def m_boundary_folder_move(f, case, viol):
+    """mechanism: a FOLDER is moved across a sync-root boundary (out of the root, or into it carrying children / a history the
+    state already knows as irrelevant): children are not created on the peer, the old subtree is left behind, or the engine
+    keeps acting on the moved-out folder by id.  Every differing path must lie under such a move's inside or outside path."""
+    moves = _abs_moves(case, ("rename_dir",))
+    if not moves:
+        return False
+    if viol["cls"] == "nonquiescent":
+        return True
+    return _paths_related_to_moves(viol, moves)
+
+
+def m_moved_out_race(f, case, viol):
+    """mechanism: a FILE is moved out of the root while a change to the same object made on the peer has not been synchronised
+    yet (no quiet in between): the engine still applies the peer's change (upload/delete) to the object by id, outside the root."""
+    moves = [m for m in _abs_moves(case, ("rename",)) if m[5] == "out"]
+    if not moves:
+        return False
+    plan = case.get("plan", [])
+    ok = []
+    for m in moves:
+        for j, u in enumerate(plan):
+            if j == m[0] or not u or u[0] != "U" or u[1] == m[1]:
+                continue
+            lo, hi = min(j, m[0]), max(j, m[0])
+            if any(it and it[0] == "Q" for it in plan[lo + 1:hi]):
+                continue
+            if any(_related(q, m[3]) for q in _op_paths(u)):
+                ok.append(m)
+    if not ok:
+        return False
+    if viol["cls"] == "nonquiescent":
+        return True
+    return _paths_related_to_moves(viol, ok)
+
+
+MATCHERS = {"boundary_folder_move": m_boundary_folder_move, "moved_out_race": m_moved_out_race, "crash_rename_over": m_crash_rename_over, "event_exc": m_event_exc, "half_transfer": m_half_transfer, "history": m_history, "rename_race": m_rename_race, "dirdelete_race": m_dirdelete_race}
 
 
 def match_one(f, case, viol):
